@@ -33,19 +33,19 @@ type helixObs struct {
 }
 
 type mateObs struct {
-	Ev    string `json:"ev"` // "mate" | "boltnut"
-	Name  string `json:"name"`
-	TolE  int    `json:"tole"` // micrometres taken off the external radius
-	TolI  int    `json:"toli"` // micrometres added to the internal radius
-	Taper bool   `json:"taper"`
-	Err   bool   `json:"err"`
-	N     int    `json:"n"`
-	ExtIn int    `json:"extin"` // samples inside the external thread / the bolt
-	IntIn int    `json:"intin"` // samples inside the remaining (nut) material
-	Amb   int    `json:"amb"`   // samples within 1e-9 pitch of either surface (not judged)
-	Bad   int    `json:"bad"`   // samples inside both
-	Worst int64  `json:"worst"` // deepest common penetration / pitch * 1e6
-	WP    [3]int64 `json:"wp"`  // that sample (micro-units), for the report
+	Ev    string   `json:"ev"` // "mate" | "boltnut"
+	Name  string   `json:"name"`
+	TolE  int      `json:"tole"` // micrometres taken off the external radius
+	TolI  int      `json:"toli"` // micrometres added to the internal radius
+	Taper bool     `json:"taper"`
+	Err   bool     `json:"err"`
+	N     int      `json:"n"`
+	ExtIn int      `json:"extin"` // samples inside the external thread / the bolt
+	IntIn int      `json:"intin"` // samples inside the remaining (nut) material
+	Amb   int      `json:"amb"`   // samples within 1e-9 pitch of either surface (not judged)
+	Bad   int      `json:"bad"`   // samples inside both
+	Worst int64    `json:"worst"` // deepest common penetration / pitch * 1e6
+	WP    [3]int64 `json:"wp"`    // that sample (micro-units), for the report
 }
 
 type taperObs struct {
